@@ -385,10 +385,10 @@ def observe(events, metas):
         rows.append(row)
         # S->I comparison with the outcome the implementation-shaped spec prescribes
         cs = m["case"]
+        if m.get("upstreamClosed") and cs["forwarded"]:
+            cs = dict(cs, forwarded=relayed, status=status)      # the spec has no host-closed-upstream action: not compared
         exp_status = cs["status"] if cs["status"] != 299 else m["hostStatus"]
         mism = []
-        if m.get("upstreamClosed"):
-            cs = dict(cs, forwarded=relayed, status=status if cs["forwarded"] else cs["status"])
         if relayed != cs["forwarded"]:
             mism.append("forwarded spec=%s impl=%s" % (cs["forwarded"], relayed))
         if status != exp_status and m.get("hostFault", "none") == "none":
